@@ -251,6 +251,15 @@ func runC17(env *Env, data map[string]any) *Outcome {
 		} else if !lay.ok && impl != "uncloseable" {
 			addF(o, Finding{Kind: "D", What: "total --now (" + lay.name + ") must refuse the open range", Impl: impl, Input: in})
 		}
+		// every evaluating command takes --now the same way: closed or refused exactly like `klog total --now`
+		other := [][]string{{"tags", "--no-warn"}, {"report", "--no-warn"}, {"today", "--no-warn"}, {"json"}, {"report", "-a", "w", "--fill", "--no-warn"}}[(minute+len(lay.name))%5]
+		evals++
+		ro := runCLI(env, CLIOpts{Now: mkTime(now[0], now[1], now[2], now[3], now[4])}, append(append([]string{}, other...), "--now", file)...)
+		if ro.Panic != "" {
+			addF(o, Finding{Kind: "D", What: "klog " + strings.Join(other, " ") + " --now crashes (" + lay.name + "): " + ro.Panic, Input: in})
+		} else if res.Panic == "" && (ro.Code == 0) != (res.Code == 0) {
+			addF(o, Finding{Kind: "D", What: fmt.Sprintf("`klog %s --now` (%s) exits %d although `klog total --now` exits %d: an open range is closed / refused at an instant by one command and not by the other", strings.Join(other, " "), lay.name, ro.Code, res.Code), Impl: short(ro.Stdout+ro.Err, 300), Input: in})
+		}
 	}
 	// ---- total --now with open ranges in several records (each one is closed or refused on its own) ----
 	recOf := func(date string, start int) string { return date + "\n    30m\n    " + fmtTime24(start) + " - ?\n" }
